@@ -394,7 +394,7 @@ def check_assembly(ctx, repo):
         raise Undecided('anchor FragmentsOfRegexps.insert / assemble_regexp not found')
     w = repo.walker()
     rule = 'R12-literal-escape'
-    for p in w.paths(ins.node, cls=fr):
+    for p in repo.walker(split_ifexp=True).paths(ins.node, cls=fr):
         if p.raises():
             continue
         gt = guard_texts(p.guards)
@@ -421,32 +421,36 @@ def check_assembly(ctx, repo):
             ctx.violation(rule, ins, 'path [%s]' % '; '.join(sorted(gt)), 'the chunk is not placed in the underlying buffer (holes / collisions are lost)', ins.node.lineno, clause='a')
     # (e) holes
     rule = 'R12-holes'
-    src = asm.node
-    loops = [n for n in ast.walk(src) if isinstance(n, ast.For)]
+    # assemble_regexp and what it delegates to (a generator of the pieces, a helper)
+    members = [f for f in repo.reach(asm, depth=2) if f is asm or f.cls is fr]
     okh = False
-    for n in ast.walk(src):
-        if isinstance(n, ast.BinOp) and isinstance(n.op, ast.Mod) and isinstance(n.left, ast.Constant) and isinstance(n.left.value, (str, bytes)):
-            fmt = n.left.value
-            fmt = fmt.decode('latin-1') if isinstance(fmt, bytes) else fmt
-            st = stmt_text(n)
-            if fmt in ('(?:.{%i})', '(?:.{%d})'):
-                okh = True
-                ctx.holds(rule, asm, st, 'a hole of n bytes matches exactly n arbitrary bytes', n.lineno, clause='e')
-            else:
-                okh = True
-                ctx.violation(rule, asm, st, 'holes must render as (?:.{n})', n.lineno, clause='e')
+    for f_ in members:
+        for n in ast.walk(f_.node):
+            if isinstance(n, ast.BinOp) and isinstance(n.op, ast.Mod) and isinstance(n.left, ast.Constant) and isinstance(n.left.value, (str, bytes)):
+                fmt = n.left.value
+                fmt = fmt.decode('latin-1') if isinstance(fmt, bytes) else fmt
+                st = stmt_text(n)
+                if fmt in ('(?:.{%i})', '(?:.{%d})'):
+                    okh = True
+                    ctx.holds(rule, f_, st, 'a hole of n bytes matches exactly n arbitrary bytes', n.lineno, clause='e')
+                else:
+                    okh = True
+                    ctx.violation(rule, f_, st, 'holes must render as (?:.{n})', n.lineno, clause='e', witness=True)
     if not okh:
         ctx.violation(rule, asm, 'assemble_regexp', 'holes between chunks are not rendered: the pattern is shorter than the packet', asm.node.lineno, clause='e')
     # gap arithmetic: hole_length = offset - begin; begin = offset + len(string); sorted walk
-    wp = w.paths(asm.node, cls=fr)
-    for p in wp:
-        for e in p.effects:
-            if e.kind == 'loop':
-                it = canon(e.sub['iter'])
-                if not it.startswith('sorted('):
-                    ctx.violation(rule, asm, 'for ... in %s' % it, 'chunks are not assembled in position order', e.lineno, clause='e')
-                else:
-                    ctx.holds(rule, asm, 'for ... in %s' % it, 'chunks assembled in position order', e.lineno, clause='e')
+    done = False
+    for f_ in members:
+        for p in w.paths(f_.node, cls=fr):
+            for e in p.effects:
+                if e.kind == 'loop' and not done:
+                    it = canon(e.sub['iter'])
+                    if not it.startswith('sorted('):
+                        ctx.violation(rule, f_, 'for ... in %s' % it, 'chunks are not assembled in position order', e.lineno, clause='e')
+                    else:
+                        ctx.holds(rule, f_, 'for ... in %s' % it, 'chunks assembled in position order', e.lineno, clause='e')
+                    done = True
+            if done:
                 break
 
 
